@@ -805,9 +805,10 @@ func Bech32Decode(s string) (string, []byte, error) {
 // CRLF line ends, whitespace before the BEGIN line and after the END line, a
 // missing final newline. ok is false if the text is not of that shape.
 func NormalizeArmor(s string) (string, bool) {
-	t := strings.TrimLeft(s, " \t\r\n")
-	// leading whitespace must consist of whole lines: the BEGIN line starts a line
-	t = strings.TrimRight(t, " \t\r\n")
+	// "whitespace" around the armor is what Go's TrimSpace calls white space
+	// (blank, TAB, LF, CR, VT, FF, NEL, NBSP): the tolerance is stated without a
+	// list of characters, and this is the reading the armor checks use
+	t := strings.TrimSpace(s)
 	t = strings.ReplaceAll(t, "\r\n", "\n")
 	if strings.ContainsRune(t, '\r') {
 		return "", false
